@@ -1,170 +1,928 @@
-"""C11 — QUBO / PUBO export (DESIGN §5 C11)."""
+"""C11 — QUBO / PUBO export (DESIGN §5 C11).
+
+Written against the normal form (VIEW = 'norm'): extracted helpers are inlined and iterator chains with
+closures are explicit `next` loops.  Every rule is a condition on dataflow / paths ("the value written
+to the map derives from ...", "no Ok-exit is reachable when ... fails", "every path from the
+accumulation back to the loop header passes ...") and every recognised idiom of a check is one entry of
+a table below; nothing counts syntactic items.
+"""
 from .common import *
 
+VIEW = 'norm'
 INST = 'v1::Instance'
 
 
+# =============================================================================================
+# path-sensitive reachability (local; candidate for templates.py, see C11-NOTES.txt)
+# =============================================================================================
+# T.reach_cp follows constant bools only.  After normalisation a `?` inside a spliced closure and the
+# `?` on the result of the rewritten `try_for_each` are two Try::branch switches in a row: the Err made
+# by the first one must be known to be an Err at the second one, otherwise "the error reaches the
+# Ok-exit".  reach_v additionally propagates which variant a Result / Option / ControlFlow local holds.
+V_DISCR = {'Result::Ok': 0, 'Result::Err': 1, 'Option::None': 0, 'Option::Some': 1, 'ControlFlow::Continue': 0, 'ControlFlow::Break': 1}
+V_BRANCH = {'Result::Ok': 'ControlFlow::Continue', 'Option::Some': 'ControlFlow::Continue', 'Result::Err': 'ControlFlow::Break', 'Option::None': 'ControlFlow::Break'}
+# adaptors that keep "is the error variant": name-regex -> {variant in: variant out}
+V_ADAPT = [
+    (re.compile(r'Result::<.*>::(map_err|map|inspect_err|inspect)(::<.*>)?$'), {'Result::Ok': 'Result::Ok', 'Result::Err': 'Result::Err'}),
+    (re.compile(r'anyhow::Context<.*>::(with_context|context)(::<.*>)?$'), {'Result::Ok': 'Result::Ok', 'Result::Err': 'Result::Err', 'Option::Some': 'Result::Ok', 'Option::None': 'Result::Err'}),
+    (re.compile(r'Option::<.*>::ok_or(_else)?(::<.*>)?$'), {'Option::Some': 'Result::Ok', 'Option::None': 'Result::Err'}),
+    (re.compile(r'Option::<.*>::(copied|cloned|map|as_ref|as_mut|inspect)(::<.*>)?$'), {'Option::Some': 'Option::Some', 'Option::None': 'Option::None'}),
+]
+
+
+def _variant_of(adt):
+    for k in V_DISCR:
+        if adt.endswith(k): return k
+    return None
+
+
+def _err_variant_of_type(ty, name=''):
+    s = (ty or '').strip()
+    if s.startswith('std::option::Option') or '<std::option::Option<' in name[:40]: return 'Option::None'
+    return 'Result::Err'
+
+
+def reach_v(body, starts, env0=None, stop=(), forced=None, hits=None):
+    """blocks reachable from `starts` (list of bb) when the locals in env0 hold the given values
+    ({local: True/False | 'Result::Err' | ...}); switches on a known bool / a known discriminant follow
+    the matching target only.  Blocks in `stop` are neither entered nor returned (the ones a feasible
+    path arrives at are added to `hits`).  forced = {switch bb: target}: outcome of tests decided by an
+    assumption of the caller ("the kind is Binary")."""
+    start_env = frozenset((env0 or {}).items())
+    mb = T._mut_borrowed(body)            # a value that can be written through a `&mut` is never assumed known
+    seen = set(); out = set(); work = [(s, start_env) for s in starts if s not in stop]
+    while work:
+        bi, env = work.pop()
+        if (bi, env) in seen: continue
+        seen.add((bi, env)); out.add(bi)
+        if len(seen) > 60000: return out | body.reach(starts, stop)        # give up: over-approximate
+        e = dict(env); blk = body.blocks[bi]
+        for st in blk['st']:
+            if 'dst' not in st: continue
+            d = st['dst']; dl = d['l']
+            if d['p']:
+                e.pop(dl, None); continue
+            rv = st['rv']; k = rv['k']; o = rv['ops'][0] if rv.get('ops') else None
+            val = None
+            if k == 'agg':
+                val = _variant_of(rv['adt'])
+            elif k == 'use' and o['k'] == 'const':
+                if o['v'] in ('true', 'false') and body.locals[dl] == 'bool': val = (o['v'] == 'true')
+            elif k == 'use' and o['k'] in ('copy', 'move') and not o['pl']['p']:
+                val = e.get(o['pl']['l'])
+            elif k == 'un' and rv['op'] == 'Not' and o['k'] in ('copy', 'move') and not o['pl']['p']:
+                v0 = e.get(o['pl']['l'])
+                if isinstance(v0, bool): val = not v0
+            elif k == 'discr' and not rv['pl']['p']:
+                v0 = e.get(rv['pl']['l'])
+                if isinstance(v0, str): val = ('discr', V_DISCR[v0])
+            if val is None or dl in mb: e.pop(dl, None)
+            else: e[dl] = val
+        t = blk['term']; succs = body.succ(bi)
+        if t['k'] == 'call':
+            d = t['dst']; dl = d['l']; nm = t['r'] or t['f']; val = None
+            a0 = t['args'][0] if t['args'] else None
+            v0 = e.get(a0['pl']['l']) if a0 and a0['k'] in ('copy', 'move') and not a0['pl']['p'] else None
+            if not d['p']:
+                if 'FromResidual' in nm and nm.endswith('from_residual'):
+                    val = _err_variant_of_type(body.locals[dl], nm)
+                elif T.TRY_BRANCH.search(nm):
+                    if isinstance(v0, str): val = V_BRANCH.get(v0)
+                elif T.NOT_CALL.search(nm):
+                    if isinstance(v0, bool): val = not v0
+                elif isinstance(v0, str):
+                    for rx, m in V_ADAPT:
+                        if rx.search(T.strip_generics_tail(nm)) or rx.search(nm):
+                            val = m.get(v0); break
+            if val is None or dl in mb: e.pop(dl, None)
+            else: e[dl] = val
+        elif t['k'] == 'switch' and t['d']['k'] != 'const' and not t['d']['pl']['p']:
+            v0 = e.get(t['d']['pl']['l'])
+            m = {val: tg for val, tg in t['ts']}
+            if isinstance(v0, bool): succs = [m.get(1 if v0 else 0, t['else'])]
+            elif isinstance(v0, tuple): succs = [m.get(v0[1], t['else'])]
+        if forced and bi in forced: succs = [forced[bi]]
+        fe = frozenset(e.items())
+        for s in succs:
+            if body.blocks[s]['cleanup']: continue
+            if s in stop:
+                if hits is not None: hits.add(s)
+                continue
+            work.append((s, fe))
+    return out
+
+
+def must_pass_v(body, start, targets, via):
+    """every (feasible) path from `start` to a block of `targets` passes a block of `via`"""
+    if start in via: return True
+    return not (reach_v(body, [start], stop=set(via)) & set(targets))
+
+
+class Side:
+    """what one target of a switch leads to"""
+    def __init__(self, body, bb):
+        self.bb = bb
+        r = reach_v(body, [bb]) if bb is not None else set()
+        self.blocks = r; self.ok = bool(r & body.strict_ok_exits()); self.err = bool(r & body.err_exits())
+
+
+class Guard2:
+    """a two-sided test at switch_bb: `good` targets (the polarity the property needs) and `bad` ones.
+    holds(): Ok-exits are reachable from a good target, from no bad target, every bad target reaches an
+    Err-exit, and the test dominates every Ok-exit."""
+    def __init__(self, body, switch_bb, good, bad):
+        self.body = body; self.switch_bb = switch_bb
+        self.good = [Side(body, b) for b in good]; self.bad = [Side(body, b) for b in bad]
+
+    def requires(self):
+        return bool(self.good) and bool(self.bad) and any(s.ok for s in self.good) and not any(s.ok for s in self.bad) and all(s.err for s in self.bad)
+
+    def dominates_ok_exits(self):
+        return all(self.body.dominates(self.switch_bb, e) for e in self.body.strict_ok_exits())
+
+    def holds(self): return self.requires() and self.dominates_ok_exits()
+
+    def describe(self):
+        return 'switch bb%d: good->%s bad->%s' % (self.switch_bb, [(s.bb, s.ok, s.err) for s in self.good], [(s.bb, s.ok, s.err) for s in self.bad])
+
+
+def bool_guards(body, local, polarity):
+    """Guard2 for every switch the bool in `local` flows to (through copies, `!`, anyhow's `not`);
+    `polarity` is the value the property needs"""
+    out = []
+    for sb, neg in T.bool_flow(body, local):
+        t, f = T.switch_sides(body, sb, neg)
+        good, bad = ([t], [f]) if polarity else ([f], [t])
+        out.append(Guard2(body, sb, [b for b in good if b is not None], [b for b in bad if b is not None]))
+    return out
+
+
+# =============================================================================================
+# idiom tables
+# =============================================================================================
+def single_def(body, l):
+    """the only definition of the whole local (writes through a projection of it are not definitions)"""
+    ds = [d for d in body.defs_of(l) if not (d[0] == 'stmt' and d[2]['dst']['p'])]
+    return ds[0] if len(ds) == 1 else None
+
+
+VALUE_THROUGH = re.compile(r'::(abs|copied|cloned|clone|unwrap_or|unwrap_or_default|unwrap|expect|deref|deref_mut|borrow|borrow_mut|as_ref|as_mut|into|from|get|get_mut|into_mut|or_insert|or_insert_with|or_default|and_modify)(::<.*>)?$')
+
+
+def rooted_in(body, o, is_root_call, depth=16):
+    """does the value of operand `o` come out of a call satisfying is_root_call — following the unique
+    definitions through copies, references, arithmetic and value-preserving calls (VALUE_THROUGH)?
+    Unlike a slice this does not tie together values that merely were captured by the same closure."""
+    if o['k'] not in ('copy', 'move') or depth == 0: return False
+    l = o['pl']['l']
+    if 1 <= l <= body.argc: return False
+    d = single_def(body, l)
+    if d is None: return False
+    kind, bi, x = d
+    if kind == 'call':
+        c = [y for y in body.calls if y.bb == bi][0]
+        if is_root_call(c): return True
+        if VALUE_THROUGH.search(T.strip_generics_tail(c.name)) and c.args: return rooted_in(body, c.args[0], is_root_call, depth - 1)
+        return False
+    rv = x['rv']
+    if rv['k'] in ('ref', 'discr'): return rooted_in(body, {'k': 'copy', 'pl': rv['pl']}, is_root_call, depth - 1)
+    return any(rooted_in(body, q, is_root_call, depth - 1) for q in rv.get('ops', []))
+
+
+def usize_const(o):
+    if o['k'] != 'const': return None
+    m = re.match(r'^(?:const )?(\d+)_usize$', o['v'].strip())
+    return int(m.group(1)) if m else None
+
+
+def const_operand(body, o):
+    """an operand that is a constant, directly or as a single-definition temporary `_t = const ..`"""
+    if o['k'] == 'const': return o
+    if o['k'] in ('copy', 'move') and not o['pl']['p']:
+        d = single_def(body, o['pl']['l'])
+        if d and d[0] == 'stmt' and d[2]['rv']['k'] == 'use' and d[2]['rv']['ops'][0]['k'] == 'const': return d[2]['rv']['ops'][0]
+    return None
+
+
+FLIP = {'Lt': 'Gt', 'Gt': 'Lt', 'Le': 'Ge', 'Ge': 'Le', 'Eq': 'Eq', 'Ne': 'Ne'}
+
+
+def emptiness_tests(body, recv_ok):
+    """EMPTY idioms: bool locals that say whether a collection is empty.  Returns (bool local, bb,
+    value meaning `empty`, receiver operand).
+       c.is_empty()                      -> True
+       c.len() == 0 | 0 == c.len()       -> True
+       c.len() != 0 | c.len() > 0 | c.len() >= 1 | 0 < c.len() | 1 <= c.len()   -> False
+       c.len() < 1 | 1 > c.len()         -> True"""
+    out = []
+    for c in body.calls:
+        if c.item == 'is_empty' and c.args and recv_ok(c):
+            out.append((c.dst['l'], c.bb, True, c.args[0]))
+    lens = {c.dst['l']: c for c in body.calls if c.item == 'len' and c.args and recv_ok(c) and not c.dst['p']}
+    for bi, st in body.stmts():
+        rv = st['rv']
+        if rv['k'] != 'bin' or rv['op'] not in FLIP or st['dst']['p']: continue
+        a, b = rv['ops']; op = rv['op']
+        def len_of(o):
+            if o['k'] not in ('copy', 'move') or o['pl']['p']: return None
+            l = o['pl']['l']
+            for _ in range(4):
+                if l in lens: return lens[l]
+                d = single_def(body, l)
+                if d and d[0] == 'stmt' and d[2]['rv']['k'] == 'use' and d[2]['rv']['ops'][0]['k'] in ('copy', 'move') and not d[2]['rv']['ops'][0]['pl']['p']:
+                    l = d[2]['rv']['ops'][0]['pl']['l']
+                else: return None
+            return None
+        ca, cb = const_operand(body, a), const_operand(body, b)
+        if len_of(a) is not None and cb is not None: lc = len_of(a); k = usize_const(cb)
+        elif len_of(b) is not None and ca is not None: lc = len_of(b); k = usize_const(ca); op = FLIP[op]
+        else: continue
+        # now: len <op> k
+        empty_when = {('Eq', 0): True, ('Ne', 0): False, ('Gt', 0): False, ('Ge', 1): False, ('Lt', 1): True, ('Le', 0): True}.get((op, k))
+        if empty_when is None: continue
+        out.append((st['dst']['l'], bi, empty_when, lc.args[0]))
+    return out
+
+
+def enum_tests(ctx, body, adt_suffix, src_need=None):
+    """ENUM-TEST idioms on a value of enum `adt_suffix`.  Each test is (switch_bb, {variant name: target bb}):
+       x == K / x != K        PartialEq::eq / ne against a constant variant, then a bool switch
+       matches!(x, K) / match x { K => .. }    discriminant switch on x
+       raw == K as i32        integer comparison of the raw prost field with the variant's discriminant
+    src_need(slice) restricts x to values with the required origin."""
+    adt = ctx.F.adt(adt_suffix)
+    if adt is None: return None
+    names = {v['discr']: v['name'] for v in adt['variants']}
+    allv = list(names.values())
+    ty_re = re.compile(r"^&?('\w+ )?(mut )?([\w:]*::)?" + re.escape(adt_suffix) + r"$")
+    tests = []
+
+    def bool_tests(local, variant, eq):
+        for sb, neg in T.bool_flow(body, local):
+            t, f = T.switch_sides(body, sb, neg)
+            hit, miss = (t, f) if eq else (f, t)
+            tests.append((sb, {n: (hit if n == variant else miss) for n in allv}))
+
+    for c in body.calls:
+        if c.item in ('eq', 'ne') and 'PartialEq' in (c.trait or '') and ty_re.match((c.self_ty or '').strip()):
+            vs = [enum_variant_of_operand(ctx, body, a) for a in c.args]
+            hit = [v for v in vs if v and v.split('::')[-1] in allv and adt_suffix.split('::')[-1] in v]
+            if not hit: continue
+            others = [a for a, v in zip(c.args, vs) if not (v and v.split('::')[-1] in allv)]
+            if src_need is not None and (not others or not src_need(ctx.S.slice_operand(body, others[0]))): continue
+            bool_tests(c.dst['l'], hit[0].split('::')[-1], c.item == 'eq')
+    for bi in sorted(body.live):
+        t = body.blocks[bi]['term']
+        if t['k'] != 'switch' or t['d']['k'] == 'const' or t['d']['pl']['p']: continue
+        d = single_def(body, t['d']['pl']['l'])
+        if not d or d[0] != 'stmt' or d[2]['rv']['k'] != 'discr': continue
+        pl = d[2]['rv']['pl']
+        if any(p != '*' for p in pl['p']) or not ty_re.match(body.locals[pl['l']].strip()): continue
+        if src_need is not None and not src_need(ctx.S.backslice(body, [pl['l']])): continue
+        m = {v: tg for v, tg in t['ts']}
+        tests.append((bi, {n: m.get(dv, t['else']) for dv, n in names.items()}))
+    for bi, st in body.stmts():
+        rv = st['rv']
+        if rv['k'] == 'bin' and rv['op'] in ('Eq', 'Ne') and rv.get('ty') == 'i32' and not st['dst']['p']:
+            cs = [const_operand(body, o) for o in rv['ops']]
+            for i in (0, 1):
+                if cs[i] is None or cs[1 - i] is not None: continue
+                mm = re.match(r'^(?:const )?(-?\d+)_i32$', cs[i]['v'].strip())
+                if not mm or int(mm.group(1)) not in names: continue
+                if src_need is not None and not src_need(ctx.S.slice_operand(body, rv['ops'][1 - i])): continue
+                bool_tests(st['dst']['l'], names[int(mm.group(1))], rv['op'] == 'Eq')
+    return tests
+
+
+def enum_guard(ctx, rule, body, adt_suffix, allowed, what, src_need=None):
+    """T-GUARD: the Ok-exits are reachable exactly for the variants in `allowed` of a test on the enum"""
+    tests = enum_tests(ctx, body, adt_suffix, src_need)
+    if tests is None:
+        ctx.lost(rule, 'ADT ' + adt_suffix); return None
+    seen = []
+    for sb, tab in tests:
+        good = sorted({tg for n, tg in tab.items() if n in allowed}); bad = sorted({tg for n, tg in tab.items() if n not in allowed})
+        g = Guard2(body, sb, good, bad); ctx.counters['cfg_paths'] += 1
+        if not (set(good) & set(bad)) and g.holds():
+            ctx.ok(rule, 'T-GUARD', body.site(sb), guard=what, shape=g.describe()); return g
+        seen.append(g.describe())
+    if not tests: ctx.bad(rule, 'T-GUARD', body.name, 'no test `%s` found' % what, body.site())
+    else: ctx.bad(rule, 'T-GUARD', body.name, 'test `%s` does not guard the Ok-exits with the required polarity' % what, body.site(tests[0][0]), seen='; '.join(seen)[:300])
+    return None
+
+
+def local_guard(ctx, rule, body, cands, what):
+    """T-GUARD over candidate (bool local, bb, required value): one of them must hold"""
+    seen = []
+    for local, bb, pol in cands:
+        for g in bool_guards(body, local, pol):
+            ctx.counters['cfg_paths'] += 1
+            if g.holds():
+                ctx.ok(rule, 'T-GUARD', body.site(bb), guard=what, shape=g.describe()); return (local, bb, g)
+            seen.append(g.describe())
+    if not cands: ctx.bad(rule, 'T-GUARD', body.name, 'no test `%s` found' % what, body.site())
+    else: ctx.bad(rule, 'T-GUARD', body.name, 'test `%s` does not guard the Ok-exits with the required polarity' % what, body.site(cands[0][1]), seen='; '.join(seen)[:300])
+    return None
+
+
+def subset_guard(ctx, rule, body, a_need, b_need, what):
+    """SUBSET idioms  A ⊆ B  (A, B: slices of the operands must satisfy a_need / b_need):
+       A.is_subset(&B)                         must be true
+       B.is_superset(&A)                       must be true
+       A.difference(&B).next().is_none()       the `None` arm is the only way to the Ok-exits
+       A.difference(&B).count() == 0           (EMPTY idioms on the count)
+       A.iter().all(|x| B.contains(x))  /  for x in &A { if !B.contains(x) { bail } }
+                                               in normal form one loop over A: every item passes
+                                               B.contains(item), its `false` side reaches no Ok-exit,
+                                               the loop dominates every Ok-exit"""
+    sl = lambda o: ctx.S.slice_operand(body, o)
+    cands = []; seen = []
+    for c in body.calls:
+        if 'BTreeSet' not in c.name and 'HashSet' not in c.name: continue
+        if c.item == 'is_subset' and a_need(sl(c.args[0])) and b_need(sl(c.args[1])): cands.append((c.dst['l'], c.bb, True))
+        if c.item == 'is_superset' and a_need(sl(c.args[1])) and b_need(sl(c.args[0])): cands.append((c.dst['l'], c.bb, True))
+        if c.item == 'difference' and a_need(sl(c.args[0])) and b_need(sl(c.args[1])):
+            for n in body.calls:
+                if n.item == 'next' and c in ctx.S.slice_operand(body, n.args[0]).call_objs and T.loop_of_next(body, n) is None:
+                    for sb, m, els in T.option_arms(body, n.dst['l']):
+                        g = Guard2(body, sb, [m.get(0, els)], [m.get(1, els)]); ctx.counters['cfg_paths'] += 1
+                        if g.holds():
+                            ctx.ok(rule, 'T-GUARD', body.site(n.bb), guard=what, shape=g.describe()); return g
+                        seen.append(g.describe())
+                    for x in body.calls:
+                        if x.item == 'is_none' and x.arg_local(0) is not None and n in ctx.S.slice_operand(body, x.args[0]).call_objs: cands.append((x.dst['l'], x.bb, True))
+                        if x.item == 'is_some' and x.arg_local(0) is not None and n in ctx.S.slice_operand(body, x.args[0]).call_objs: cands.append((x.dst['l'], x.bb, False))
+                if n.item == 'count' and c in ctx.S.slice_operand(body, n.args[0]).call_objs:
+                    for bi, st in body.stmts():
+                        rv = st['rv']
+                        if rv['k'] == 'bin' and rv['op'] in ('Eq', 'Ne', 'Gt') and not st['dst']['p']:
+                            ks = [const_operand(body, o) for o in rv['ops']]
+                            if any(k is not None and usize_const(k) == 0 for k in ks) and any(o['k'] in ('copy', 'move') and n in ctx.S.slice_operand(body, o).call_objs for o in rv['ops']):
+                                cands.append((st['dst']['l'], bi, rv['op'] == 'Eq'))
+    for local, bb, pol in cands:
+        for g in bool_guards(body, local, pol):
+            ctx.counters['cfg_paths'] += 1
+            if g.holds():
+                ctx.ok(rule, 'T-GUARD', body.site(bb), guard=what, shape=g.describe()); return g
+            seen.append(g.describe())
+    # loop form
+    oks = body.strict_ok_exits()
+    for lo in T.for_loops(body):
+        nextc, header, some_bb, none_bb, blocks = lo
+        if not a_need(sl(nextc.args[0])): continue
+        for c in body.calls:
+            if c.bb not in blocks or c.item != 'contains' or not ('BTreeSet' in c.name or 'HashSet' in c.name): continue
+            if not b_need(sl(c.args[0])) or nextc not in sl(c.args[1]).call_objs: continue
+            ctx.counters['cfg_paths'] += 1
+            gs = bool_guards(body, c.dst['l'], True)
+            okg = [g for g in gs if g.requires()]
+            every = must_pass_v(body, some_bb, {header}, {c.bb})
+            dom = all(body.dominates(header, e) for e in oks)
+            if okg and every and dom:
+                ctx.ok(rule, 'T-GUARD', body.site(c.bb), guard=what, shape='loop bb%d: ' % header + okg[0].describe()); return okg[0]
+            seen.append('loop bb%d contains@bb%d: guard=%s every-item=%s dominates=%s' % (header, c.bb, [g.describe() for g in gs], every, dom))
+    if not cands and not seen: ctx.bad(rule, 'T-GUARD', body.name, 'no test `%s` found' % what, body.site())
+    else: ctx.bad(rule, 'T-GUARD', body.name, 'test `%s` does not guard the Ok-exits with the required polarity' % what, body.site(), seen='; '.join(seen)[:400])
+    return None
+
+
+def negligible_tests(ctx, body, blocks):
+    """NEGLIGIBLE idioms: comparisons that decide whether an f64 is (numerically) zero.
+       |x| <  EPSILON, |x| <= EPSILON, EPSILON > |x|, ... (any order / strictness; f64::EPSILON only)
+       x == 0.0, x != 0.0
+    Returns (bb, stmt, operand x, small_when_true)."""
+    out = []
+    for bi, st in float_cmp_sites(body):
+        if bi not in blocks or st['dst']['p']: continue
+        rv = st['rv']; ops = rv['ops']; op = rv['op']
+        ci = [i for i, o in enumerate(ops) if o['k'] == 'const']
+        if len(ci) != 1: continue
+        k = ops[ci[0]]; x = ops[1 - ci[0]]
+        if ci[0] == 0: op = FLIP[op]                      # now: x <op> K
+        if 'EPSILON' in k['v'] and op in ('Lt', 'Le', 'Gt', 'Ge'):
+            if not ctx.S.slice_operand(body, x).has_call(r'f64>::abs$'): continue
+            out.append((bi, st, x, op in ('Lt', 'Le')))
+        elif T.f64_const(k['v']) == 0.0 and op in ('Eq', 'Ne'):
+            out.append((bi, st, x, op == 'Eq'))
+    return out
+
+
+def resolve_ref_local(body, pl):
+    """the local an assignment through `(*r)` writes to when r is a `&mut local` (captured accumulators
+    of spliced closures): follows copies of the reference"""
+    l = pl['l']
+    if pl['p'] == []: return l
+    if pl['p'] != ['*']: return None
+    for _ in range(6):
+        d = single_def(body, l)
+        if not d or d[0] != 'stmt': return None
+        rv = d[2]['rv']
+        if rv['k'] == 'use' and rv['ops'][0]['k'] in ('copy', 'move') and not rv['ops'][0]['pl']['p']: l = rv['ops'][0]['pl']['l']; continue
+        if rv['k'] == 'ref' and rv['pl']['p'] == []: return rv['pl']['l']
+        if rv['k'] == 'ref' and rv['pl']['p'] == ['*']: l = rv['pl']['l']; continue
+        return None
+    return None
+
+
+# =============================================================================================
+# the two exporters
+# =============================================================================================
 def export_rules(ctx, name, keyty, qubo):
     R = 'C11.%s' % name
     body = ctx.method(R + '/anchor', INST, name)
     if body is None: return
+    S = ctx.S
+    sl = lambda o: S.slice_operand(body, o)
     # ---- refusal guards
-    def is_empty(c): return c.item == 'is_empty' and re.search(r'Vec::<v1::Constraint>', c.name)
-    guard(ctx, R + '/guard/no-active-constraints', body, is_empty, True, 'self.constraints.is_empty()',
-          operand_need=lambda c: ctx.S.slice_operand(body, c.args[0]).has_field(INST, 'constraints'))
-    enum_eq_guard(ctx, R + '/guard/not-maximize', body, r'instance::Sense$', 'Maximize', False, 'sense() == Maximize',
-                  src_need=lambda s: s.has_field(INST, 'sense'))
-    def is_subset(c): return c.item == 'is_subset' and 'BTreeSet' in c.name
-    def subset_ops(c):
-        a = ctx.S.slice_operand(body, c.args[0]); b = ctx.S.slice_operand(body, c.args[1])
-        return a.has_call(r'used_decision_variable_ids') and a.has_field(INST, 'objective') and b.has_call(r'impl v1::Instance>::binary_ids') and not b.has_field(INST, 'objective')
-    guard(ctx, R + '/guard/only-binaries', body, is_subset, True, 'used ids ⊆ binary ids', operand_need=subset_ops)
-    bids = ctx.method(R + '/binary_ids/anchor', INST, 'binary_ids')
-    if bids is not None:
-        s = ctx.S.backslice(bids, [0])
-        kinds = []
-        for cn in s.closures:
-            cb = ctx.F.bodies.get(cn)
-            if cb is None: continue
-            for c in cb.calls:
-                if c.item in ('eq', 'ne') and 'PartialEq' in (c.trait or '') and re.search(r'Kind$', c.self_ty or ''):
-                    kinds.append((c.item, [enum_variant_of_operand(ctx, cb, a) for a in c.args]))
-        ok = any(it == 'eq' and any(v and v.endswith('Kind::Binary') for v in vs) for it, vs in kinds)
-        ctx.check(ok and s.has_call(r'Iterator>::filter') and s.has_field('v1::DecisionVariable', 'id'), R + '/binary_ids/filter-binary', 'T-BRANCHFX', bids.name,
-                  'binary_ids does not filter on kind() == Binary (%s)' % kinds, bids.site())
-    # ---- the term loop
-    loops = [lo for lo in T.for_loops(body) if ctx.S.slice_operand(body, lo[0].args[0]).has_field(INST, 'objective')]
-    ctx.check(len(loops) == 1, R + '/loop/one', 'T-LOOPMUST', body.name, 'expected one loop over the objective terms, found %d' % len(loops), body.site())
-    if len(loops) != 1: return
-    lo = loops[0]; nextc, header, some_bb, none_bb, blocks = lo
-    si = ctx.S.slice_operand(body, nextc.args[0])
-    ctx.check(si.has_call(r'IntoIterator for &v1::Function>::into_iter'), R + '/loop/term-iterator', 'T-CARRY', body.name, 'loop does not iterate the objective term iterator', body.site(nextc.bb))
+    def on_constraints(c): return re.search(r'Vec::<v1::Constraint>|\[v1::Constraint\]', c.name) and sl(c.args[0]).has_field(INST, 'constraints')
+    local_guard(ctx, R + '/guard/no-active-constraints', body, [(l, bb, emp) for l, bb, emp, recv in emptiness_tests(body, on_constraints)], 'self.constraints is empty')
+    sense = ctx.F.adt('v1::instance::Sense')
+    allowed = {v['name'] for v in sense['variants']} - {'Maximize'} if sense else set()
+    enum_guard(ctx, R + '/guard/not-maximize', body, 'v1::instance::Sense', allowed, 'sense() != Maximize', src_need=lambda s: s.has_field(INST, 'sense'))
+    subset_guard(ctx, R + '/guard/only-binaries', body,
+                 lambda a: a.has_call(r'used_decision_variable_ids') and a.has_field(INST, 'objective'),
+                 lambda b: b.has_call(r'impl v1::Instance>::binary_ids') and not b.has_field(INST, 'objective'), 'used ids ⊆ binary ids')
+    binary_ids_rules(ctx, R)
+    # ---- the term loop: a loop over the objective's (ids, coefficient) items that writes the map
+    is_map = lambda c: bool(re.search(r"(BTreeMap|btree_map::(Entry|OccupiedEntry|VacantEntry))::<('_, )?sorted_ids::%s, f64>" % keyty, c.name))
+    def term_loop(lo):
+        s = sl(lo[0].args[0])
+        return s.has_field(INST, 'objective') and any(re.search(r'IntoIterator for &(\'\w+ )?v1::Function>::into_iter', c.name) for c in s.call_objs)
+    loops = [lo for lo in T.for_loops(body) if term_loop(lo)]
+    ctx.check(bool(loops), R + '/loop/term-iterator', 'T-CARRY', body.name, 'no loop over the terms of the objective', body.site())
+    # MAP-WRITE idioms (key operand index): map.entry(k) | map.insert(k, v) | map.get_mut(&k)
+    KEYED = {'entry': 1, 'insert': 1, 'get_mut': 1}
+    def writes_in(lo): return [c for c in body.calls if c.bb in lo[4] and is_map(c) and 'BTreeMap::<' in c.name and c.item in KEYED]
+    wloops = [lo for lo in loops if writes_in(lo)]
+    ctx.check(len(wloops) == 1, R + '/loop/writes-map', 'T-LOOPMUST', body.name, 'the map is written in %d loops over the objective terms' % len(wloops), body.site())
+    if len(wloops) != 1: return
+    lo = wloops[0]; nextc, header, some_bb, none_bb, blocks = lo
+    W = writes_in(lo)
+    mapcalls = [c for c in body.calls if c.bb in blocks and is_map(c)]
+    from_item = lambda s: nextc in s.call_objs
+    map_rooted = lambda o: rooted_in(body, o, lambda c: c in mapcalls)
     ctx.check(all(body.dominates(header, e) for e in body.strict_ok_exits()), R + '/loop/dominates', 'T-MUSTCALL', body.name, 'term loop does not dominate the Ok-exit', body.site(nextc.bb))
+    restr = sorted({x.item for x in sl(nextc.args[0]).call_objs if x.item in RESTRICTING and 'Iterator' in (x.trait or '')})
+    ctx.check(not restr, R + '/loop/all-items', 'T-LOOPMUST', body.name, 'the term iterator is restricted by %s' % restr, body.site(nextc.bb))
     # keys only through the canonicalising constructors
     aggs = [bi for bi, st in body.stmts() if st['rv']['k'] == 'agg' and re.search(r'sorted_ids::Binary(Ids|IdPair)$', st['rv']['adt'])]
     ctx.check(not aggs, R + '/keys/no-direct-construction', 'T-CARRY', body.name, 'key constructed directly at %s' % [body.site(b) for b in aggs], body.site())
-    entry = [c for c in body.calls if c.item == 'entry' and 'BTreeMap' in c.name and c.bb in blocks]
-    ctx.check(len(entry) == 1, R + '/loop/one-entry', 'T-LOOPMUST', body.name, 'expected one map.entry(key) in the loop, found %d' % len(entry), body.site())
-    for c in entry:
-        ks = ctx.S.slice_operand(body, c.args[1])
-        conv = r'BinaryIdPair as std::convert::TryFrom<' if qubo else r'BinaryIds as std::convert::From<sorted_ids::SortedIds>>::from'
-        ctx.check(ks.has_call(conv) and nextc in ks.call_objs, R + '/keys/from-term-ids', 'T-CARRY', body.name, 'map key is not the canonicalised id set of the term', body.site(c.bb))
+    conv = r'BinaryIdPair as std::convert::TryFrom<' if qubo else r'BinaryIds as std::convert::From<sorted_ids::SortedIds>>::from'
+    badk = [c for c in W if not (sl(c.args[KEYED[c.item]]).has_call(conv) and from_item(sl(c.args[KEYED[c.item]])))]
+    ctx.check(not badk, R + '/keys/from-term-ids', 'T-CARRY', body.name, 'map key is not the canonicalised id set of the term', body.site((badk or W)[0].bb), sites=len(W))
     if qubo:
-        tf = [c for c in body.calls if c.item == 'try_from' and re.search(r'BinaryIdPair as std::convert::TryFrom', c.name)]
+        tf = [c for c in body.calls if c.item == 'try_from' and re.search(r'BinaryIdPair as std::convert::TryFrom', c.name) and c.bb in blocks]
         ctx.check(len(tf) >= 1, R + '/guard/degree/try_from', 'T-GUARD', body.name, 'BinaryIdPair::try_from not called', body.site())
-        errflow_calls(ctx, R + '/guard/degree/propagates', body, tf, 'BinaryIdPair::try_from result')
-    # accumulate: and_modify(+=c) / or_insert(c)
-    acc = [c for c in body.calls if c.item in ('or_insert', 'or_insert_with', 'or_default') and c.bb in blocks]
-    ctx.check(len(acc) == 1, R + '/accumulate/or_insert', 'T-LOOPMUST', body.name, 'expected one or_insert in the loop, found %d' % len(acc), body.site())
-    addc = False
-    for c in acc:
-        s = ctx.S.slice_operand(body, c.args[0])
-        for cn in s.closures:
-            cb = ctx.F.bodies.get(cn)
-            if cb is None: continue
-            for bi, st in cb.stmts():
-                if st['rv']['k'] == 'bin' and st['rv']['op'] == 'Add' and st['rv'].get('ty') == 'f64' and st['dst']['p']: addc = True
-        v = ctx.S.slice_operand(body, c.args[1]) if len(c.args) > 1 else None
-        ctx.check(v is not None and nextc in v.call_objs, R + '/accumulate/insert-coefficient', 'T-CARRY', body.name, 'inserted value is not the term coefficient', body.site(c.bb))
-    ctx.check(addc, R + '/accumulate/add', 'T-BRANCHFX', body.name, 'existing entry is not updated with `+= c`', body.site())
-    # ---- zero filter after accumulation, and the only skipped terms are the tiny ones
-    cmps = [(bi, st) for bi, st in float_cmp_sites(body) if bi in blocks and any(o['k'] == 'const' and 'EPSILON' in o['v'] for o in st['rv']['ops'])]
+        # path formulation of `?` / match / let-else / map_err..: if try_from returns Err, no Ok-exit is reachable
+        leaks = []
+        for c in tf:
+            ctx.counters['cfg_paths'] += 1
+            r = reach_v(body, [c.target], {c.dst['l']: 'Result::Err'}) if c.target >= 0 and not c.dst['p'] else body.reach([c.target])
+            if (r & body.strict_ok_exits()) or not (r & body.err_exits()): leaks.append(c)
+        if tf:
+            ctx.check(not leaks, R + '/guard/degree/propagates', 'T-ERRFLOW', body.name, 'an Err of BinaryIdPair::try_from can reach an Ok-exit', body.site((leaks or tf)[0].bb))
+    # ---- accumulate: map[key] = (old value or 0) + c
+    # INSERT idioms (value operand index): entry.or_insert(v) | entry.or_insert_with(f) | vacant.insert(v) | map.insert(k, v)
+    ins = []
+    for c in mapcalls:
+        if c.item in ('or_insert', 'or_insert_with'): ins.append((c, c.args[1]))
+        elif c.item == 'insert' and 'VacantEntry' in c.name: ins.append((c, c.args[1]))
+        elif c.item == 'insert' and 'BTreeMap::<' in c.name: ins.append((c, c.args[2]))
+        elif c.item == 'or_default': ins.append((c, None))
+    ctx.check(bool(ins), R + '/accumulate/inserts', 'T-LOOPMUST', body.name, 'no insertion of a new entry in the loop', body.site(nextc.bb))
+    # ADD idioms: `*slot += c` with slot a reference into the map (and_modify closure, get_mut, or_insert result, ..)
+    #             | `map.insert(k, old + c)` | `slot.add_assign(c)`
+    adds = []          # (bb of the accumulation, description)
+    for bi, st in body.stmts():
+        rv = st['rv']
+        if bi in blocks and rv['k'] == 'bin' and rv['op'] == 'Add' and rv.get('ty') == 'f64':
+            a, b_ = rv['ops']
+            if not ((map_rooted(a) and not map_rooted(b_) and from_item(sl(b_))) or (map_rooted(b_) and not map_rooted(a) and from_item(sl(a)))): continue
+            d = st['dst']
+            into_map = (d['p'] and map_rooted({'k': 'copy', 'pl': d})) or any(v is not None and v['k'] in ('copy', 'move') and d['l'] in sl(v).locals for c, v in ins)
+            if into_map: adds.append((bi, 'bin Add'))
+    for c in mapcalls:
+        if c.item == 'and_modify':
+            for cn in sl(c.args[1]).closures:
+                cb = ctx.F.bodies.get(cn)
+                if cb is None or cb.argc < 2: continue
+                for bi, st in cb.stmts():
+                    rv = st['rv']
+                    if rv['k'] == 'bin' and rv['op'] == 'Add' and rv.get('ty') == 'f64' and st['dst']['l'] == 2 and st['dst']['p']:
+                        o = [x for x in rv['ops'] if x['k'] in ('copy', 'move')]
+                        self_op = [x for x in o if x['pl']['l'] == 2]; other = [x for x in o if x['pl']['l'] != 2]
+                        if self_op and other and 1 in S.slice_operand(cb, other[0]).params and from_item(sl(c.args[1])):
+                            adds.append((c.bb, 'and_modify(+=)'))
+    for c in body.calls:
+        m = T.ASSIGN_CALL.match(c.name)
+        if m and m.group(1) == 'Add' and c.bb in blocks and map_rooted(c.args[0]) and from_item(sl(c.args[1])): adds.append((c.bb, 'add_assign'))
+    ctx.check(bool(adds), R + '/accumulate/add', 'T-BRANCHFX', body.name, 'existing entry is not updated with `+= c`', body.site(nextc.bb))
+    zero_ins = []; badi = []
+    for c, v in ins:
+        k0 = const_operand(body, v) if v is not None else None
+        if v is None or (k0 is not None and T.f64_const(k0['v']) == 0.0):
+            # `*entry.or_insert(0.0) += c` / or_default: the addition must be applied to this slot on every path
+            zero_ins.append(c)
+            if not (c.target >= 0 and any(must_pass_v(body, c.target, {header}, {bi}) for bi, _ in adds)): badi.append((c, 'a zero entry is inserted without adding the coefficient'))
+        elif not from_item(sl(v)): badi.append((c, 'inserted value is not the term coefficient'))
+    if ins:
+        ctx.check(not badi, R + '/accumulate/insert-coefficient', 'T-CARRY', body.name, badi[0][1] if badi else '', body.site((badi[0][0] if badi else ins[0][0]).bb), sites=len(ins))
+    # ---- zero filter after accumulation
+    tests = negligible_tests(ctx, body, blocks)
     post = []; pre = []
-    for bi, st in cmps:
-        other = [o for o in st['rv']['ops'] if not (o['k'] == 'const')]
-        if not other: continue
-        s = ctx.S.slice_operand(body, other[0])
-        if not s.has_call(r'f64>::abs$'): continue
-        if any(c in s.call_objs for c in acc): post.append((bi, st))
-        else: pre.append((bi, st))
-    ctx.check(len(post) == 1, R + '/zero/filter-present', 'T-BRANCHFX', body.name, 'expected one |value| < EPSILON test on the accumulated entry, found %d' % len(post), body.site())
-    for bi, st in post:
-        gs = T.guards_from_local(body, st['dst']['l'], bi)
-        op = st['rv']['op']; const_right = st['rv']['ops'][1]['k'] == 'const'
-        small_when_true = (op in ('Lt', 'Le')) == const_right
+    for bi, st, x, small_true in tests:
+        if map_rooted(x): post.append((bi, st, small_true))
+        elif from_item(sl(x)): pre.append((bi, st, small_true))
+    ctx.check(bool(post), R + '/zero/filter-present', 'T-BRANCHFX', body.name, 'no |value| < EPSILON test on the accumulated entry', body.site(nextc.bb))
+    # REMOVE idioms: map.remove(&key) with the term's key | occupied_entry.remove() / remove_entry() of the entry of the term's key
+    def removals(region):
+        out = []
+        for c in mapcalls:
+            if c.bb not in region or c.item not in ('remove', 'remove_entry'): continue
+            if 'BTreeMap::<' in c.name and from_item(sl(c.args[1])): out.append(c)
+            elif 'OccupiedEntry' in c.name and any(w in sl(c.args[0]).call_objs for w in W): out.append(c)
+        return out
+    filt_bbs = set(); rm_bbs = set(); big_sides = []; badp = []
+    for bi, st, small_true in post:
         okk = False
-        for g in gs:
-            tb = g.true_bb if small_when_true else g.false_bb
-            fb = g.false_bb if small_when_true else g.true_bb
-            treg = body.reach([tb], stop={header}) ; freg = body.reach([fb], stop={header}) if fb is not None else set()
-            rm = [c for c in body.calls if c.item == 'remove' and 'BTreeMap' in c.name and c.bb in treg and c.bb not in freg]
-            if rm and T.must_pass(body, tb, {header}, {c.bb for c in rm}):
-                ksl = ctx.S.slice_operand(body, rm[0].args[1])
-                if nextc in ksl.call_objs: okk = True
-        ctx.check(okk, R + '/zero/removes-key', 'T-BRANCHFX', body.name, 'a vanishing entry is not removed from the map under its key', body.site(bi))
-    ctx.check(len(pre) == 1, R + '/skip/epsilon-test', 'T-BRANCHFX', body.name, 'expected one |c| vs EPSILON test on the raw coefficient, found %d' % len(pre), body.site())
-    via = {c.bb for c in entry}
-    for bi, st in pre:
-        gs = T.guards_from_local(body, st['dst']['l'], bi)
-        op = st['rv']['op']; const_right = st['rv']['ops'][1]['k'] == 'const'
-        small_when_true = (op in ('Lt', 'Le')) == const_right
-        for g in gs:
-            skip = g.true_bb if small_when_true else g.false_bb
-            via.add(skip)
-            keep = g.false_bb if small_when_true else g.true_bb
-            ctx.check(not (body.reach([skip], stop={header}) & {c.bb for c in entry}), R + '/skip/small-are-skipped', 'T-BRANCHFX', body.name, 'tiny coefficients still reach the map', body.site(bi))
+        for sb, neg in T.bool_flow(body, st['dst']['l']):
+            t, f = T.switch_sides(body, sb, neg)
+            small, big = (t, f) if small_true else (f, t)
+            if small is None: continue
+            sreg = body.reach([small], stop={header}); breg = body.reach([big], stop={header}) if big is not None else set()
+            rm = [c for c in removals(sreg) if c.bb not in breg]
+            ctx.counters['cfg_paths'] += 1
+            if rm and must_pass_v(body, small, {header}, {c.bb for c in rm}):
+                okk = True; rm_bbs |= {c.bb for c in rm}; big_sides.append((sb, small))
+        if okk: filt_bbs.add(bi)
+        else: badp.append(bi)
+    if post:
+        ctx.check(not badp, R + '/zero/removes-key', 'T-BRANCHFX', body.name, 'a vanishing entry is not removed from the map under its key', body.site((badp or [post[0][0]])[0]), tests=len(post))
+    bada = []
+    for bi, how in adds:
+        ctx.counters['cfg_paths'] += 1
+        if not must_pass_v(body, bi, {header}, filt_bbs): bada.append((bi, how))
+    if adds:
+        ctx.check(not bada, R + '/zero/after-every-accumulation', 'T-LOOPMUST', body.name,
+                  'a sum (%s) can stay in the map without the |value| < EPSILON test' % (bada[0][1] if bada else ''), body.site((bada or adds)[0][0]), sums=len(adds))
+    # skip tests: the coefficient itself is negligible and that side never reaches the map
+    skips = []         # (bb of the switch, small target)
+    wbbs = {c.bb for c in W}
+    for bi, st, small_true in pre:
+        for sb, neg in T.bool_flow(body, st['dst']['l']):
+            t, f = T.switch_sides(body, sb, neg)
+            small = t if small_true else f
+            if small is not None and not (body.reach([small], stop={header}) & wbbs): skips.append((sb, small))
+    # no zero can be stored: a fresh entry is either tested afterwards or known to be non-negligible
+    badz = []
+    for c, v in ins:
+        if c in zero_ins: continue
+        ctx.counters['cfg_paths'] += 1
+        tested = c.target >= 0 and must_pass_v(body, c.target, {header}, filt_bbs)
+        # .. by a skip test on the coefficient, or by the filter itself when the sum is stored only on its "big" side
+        known_big = any(body.dominates(sb, c.bb) and c.bb not in body.reach([small], stop={header}) for sb, small in skips + big_sides)
+        if not (tested or known_big): badz.append(c)
+    if ins:
+        ctx.check(not badz, R + '/zero/no-zero-inserted', 'T-BRANCHFX', body.name, 'a new entry is stored without any |.| vs EPSILON test', body.site((badz[0] if badz else ins[0][0]).bb))
+    # a term is accounted for when it reaches a write of the map under its key (incl. the removal of a cancelled sum) or is negligible
+    via = set(wbbs) | rm_bbs | {small for sb, small in skips}
     if qubo:
-        # constant term: empty id list => added to the offset
-        emp = [c for c in body.calls if c.item == 'is_empty' and c.bb in blocks]
-        okc = False
-        for c in emp:
-            for g in T.guards_from_call(body, c):
-                treg = body.reach([g.true_bb], stop={header})
-                adds = [(bi, st) for bi, st in body.stmts() if bi in treg and st['rv']['k'] == 'bin' and st['rv']['op'] == 'Add' and st['rv'].get('ty') == 'f64']
-                if adds and not (treg & {x.bb for x in entry}):
-                    okc = True; via.add(g.true_bb)
-                    cl = adds[0][1]['dst']['l']
-                    # the returned offset is that accumulator
-                    rets = [st for bi, k, st in body.ret_assignments() if k == 'ok']
-                    for r in rets:
-                        s = ctx.S.slice_operand(body, r['rv']['ops'][0])
-                        ctx.check(cl in s.locals, R + '/constant/returned', 'T-CARRY', body.name, 'the accumulated constant is not part of the result', body.site())
-                        # ... as a plain copy (no arithmetic between the accumulator and the result)
-                        plain = False
-                        op0 = r['rv']['ops'][0]
-                        if op0['k'] in ('copy', 'move'):
-                            for k2, b2, d2 in body.defs_of(op0['pl']['l']):
-                                if k2 == 'stmt' and d2['rv']['k'] == 'agg' and d2['rv']['adt'] == 'tuple':
-                                    for o in d2['rv']['ops']:
-                                        if o['k'] in ('copy', 'move') and body.locals[o['pl']['l']] == 'f64':
-                                            src = o['pl']['l']
-                                            chain = {src}
-                                            for _ in range(4):
-                                                for k3, b3, d3 in body.defs_of(src):
-                                                    if k3 == 'stmt' and d3['rv']['k'] == 'use' and d3['rv']['ops'][0]['k'] in ('copy', 'move'):
-                                                        src = d3['rv']['ops'][0]['pl']['l']; chain.add(src)
-                                            plain = cl in chain
-                        ctx.check(plain, R + '/constant/returned-unchanged', 'T-CARRY', body.name, 'the returned offset is not the accumulator itself', body.site())
-        ctx.check(okc, R + '/constant/empty-ids', 'T-BRANCHFX', body.name, 'terms with no ids are not accumulated into the offset', body.site())
+        # constant term: empty id list => added to the offset, which is returned unchanged
+        def on_ids(c): return from_item(sl(c.args[0]))
+        okc = []
+        for l, bb, emp, recv in emptiness_tests(body, on_ids):
+            if bb not in blocks: continue
+            for sb, neg in T.bool_flow(body, l):
+                t, f = T.switch_sides(body, sb, neg)
+                empty_bb = t if emp else f
+                if empty_bb is None: continue
+                treg = body.reach([empty_bb], stop={header})
+                if treg & wbbs: continue
+                for bi, st in body.stmts():
+                    rv = st['rv']
+                    if bi not in treg or rv['k'] != 'bin' or rv['op'] != 'Add' or rv.get('ty') != 'f64': continue
+                    acc = resolve_ref_local(body, st['dst'])
+                    if acc is None: continue
+                    selfop = [o for o in rv['ops'] if o['k'] in ('copy', 'move') and resolve_ref_local(body, o['pl']) == acc]
+                    other = [o for o in rv['ops'] if o not in selfop]
+                    if not selfop or not other or not from_item(sl(other[0])): continue
+                    if not must_pass_v(body, empty_bb, {header}, {bi}): continue
+                    okc.append((acc, bi)); via.add(empty_bb)
+        if okc: constant_rules(ctx, R, body, okc[0][0], okc[0][1])
+        ctx.check(bool(okc), R + '/constant/empty-ids', 'T-BRANCHFX', body.name, 'terms with no ids are not accumulated into the offset', body.site())
     ctx.counters['cfg_paths'] += 1
-    ctx.check(T.must_pass(body, some_bb, {header}, via), R + '/loop/every-term', 'T-LOOPMUST', body.name, 'a term can bypass the map without being tiny', body.site(nextc.bb))
+    ctx.check(must_pass_v(body, some_bb, {header}, via), R + '/loop/every-term', 'T-LOOPMUST', body.name, 'a term can bypass the map without being tiny', body.site(nextc.bb))
     # result is the accumulated map
-    rets = [st for bi, k, st in body.ret_assignments() if k == 'ok']
-    for r in rets:
+    rets = [(bi, st) for bi, k, st in body.ret_assignments() if k == 'ok']
+    badr = [bi for bi, r in rets if not any(c in sl(r['rv']['ops'][0]).call_objs for c in W)]
+    ctx.check(bool(rets) and not badr, R + '/result/is-the-map', 'T-CARRY', body.name, 'returned value is not the accumulated map', body.site(badr[0]) if badr else body.site())
+
+
+def plain_source(body, o, depth=8):
+    """the local an operand is a plain copy of (no arithmetic in between)"""
+    if o['k'] not in ('copy', 'move') or o['pl']['p']: return None
+    l = o['pl']['l']; chain = {l}
+    for _ in range(depth):
+        d = single_def(body, l)
+        if d and d[0] == 'stmt' and d[2]['rv']['k'] == 'use' and d[2]['rv']['ops'][0]['k'] in ('copy', 'move') and not d[2]['rv']['ops'][0]['pl']['p']:
+            l = d[2]['rv']['ops'][0]['pl']['l']; chain.add(l)
+        else: break
+    return chain
+
+
+def constant_rules(ctx, R, body, acc, add_bb):
+    """the QUBO offset: starts at 0, only grows by the constant terms, is returned as it is"""
+    inits = []
+    for k, bi, d in body.defs_of(acc):
+        if k == 'stmt' and not d['dst']['p'] and d['rv']['k'] == 'use' and d['rv']['ops'][0]['k'] == 'const': inits.append(T.f64_const(d['rv']['ops'][0]['v']))
+        elif k == 'stmt' and d['rv']['k'] == 'bin' and d['rv']['op'] == 'Add': pass
+        else: inits.append(None)
+    ctx.check(inits == [0.0], R + '/constant/starts-at-zero', 'T-CONST', body.name, 'the offset accumulator is initialised with %s' % inits, body.site(add_bb))
+    notin = []; notplain = []; rets = [(bi, r) for bi, kind, r in body.ret_assignments() if kind == 'ok']
+    for bi, r in rets:
         s = ctx.S.slice_operand(body, r['rv']['ops'][0])
-        ctx.check(any(c in s.call_objs for c in entry), R + '/result/is-the-map', 'T-CARRY', body.name, 'returned value is not the accumulated map', body.site())
+        if acc not in s.locals: notin.append(bi)
+        plain = False
+        op0 = r['rv']['ops'][0]
+        if op0['k'] in ('copy', 'move'):
+            for l in plain_source(body, op0) or ():
+                d2 = single_def(body, l)
+                if d2 and d2[0] == 'stmt' and d2[2]['rv']['k'] == 'agg' and d2[2]['rv']['adt'] == 'tuple':
+                    for o in d2[2]['rv']['ops']:
+                        if o['k'] in ('copy', 'move') and body.locals[o['pl']['l']] == 'f64':
+                            plain = acc in (plain_source(body, o) or ())
+        if not plain: notplain.append(bi)
+    ctx.check(bool(rets) and not notin, R + '/constant/returned', 'T-CARRY', body.name, 'the accumulated constant is not part of the result', body.site((notin or [add_bb])[0]))
+    ctx.check(bool(rets) and not notplain, R + '/constant/returned-unchanged', 'T-CARRY', body.name, 'the returned offset is not the accumulator itself', body.site((notplain or [add_bb])[0]))
+
+
+def binary_ids_rules(ctx, R):
+    """binary_ids(): exactly the ids of the decision variables whose kind is Binary"""
+    bids = ctx.method(R + '/binary_ids/anchor', INST, 'binary_ids')
+    if bids is None: return
+    S = ctx.S
+    ret = S.backslice(bids, [0])
+    # COLLECT idioms (normal form): set.insert(id) | vec.push(id) inside a loop over decision_variables
+    ok = False; detail = 'no loop over decision_variables that collects ids'
+    for lo in T.for_loops(bids):
+        nextc, header, some_bb, none_bb, blocks = lo
+        if not S.slice_operand(bids, nextc.args[0]).has_field(INST, 'decision_variables'): continue
+        sinks = [c for c in bids.calls if c.bb in blocks and c.item in ('insert', 'push') and c in ret.call_objs]
+        sinks = [c for c in sinks if S.slice_operand(bids, c.args[-1]).has_field('v1::DecisionVariable', 'id') and nextc in S.slice_operand(bids, c.args[-1]).call_objs]
+        if not sinks: detail = 'the loop over decision_variables does not collect the variable ids'; continue
+        tests = enum_tests(ctx, bids, 'v1::decision_variable::Kind', src_need=lambda s: nextc in s.call_objs) or []
+        tests = [(sb, tab) for sb, tab in tests if sb in blocks]
+        sbbs = {c.bb for c in sinks}
+        for sb, tab in tests:
+            reaching = sorted(n for n, tg in tab.items() if bids.reach([tg], stop={header}) & sbbs)
+            detail = 'ids of kinds %s are collected' % reaching
+            ctx.counters['cfg_paths'] += 1
+            if reaching == ['Binary'] and must_pass_v(bids, some_bb, sbbs, {sb}): ok = True
+        if not tests: detail = 'no test of kind() guards the collected ids'
+    ctx.check(ok, R + '/binary_ids/filter-binary', 'T-BRANCHFX', bids.name, 'binary_ids does not keep exactly the Binary variables (%s)' % detail, bids.site())
+
+
+# =============================================================================================
+# BinaryIdPair::try_from(Vec<u64>) — canonical pair
+# =============================================================================================
+DOM = frozenset(range(0, 8))          # abstract lengths 0..6 exact, 7 = "7 or more"
+LEN_KEEPING = ('sort', 'sort_unstable', 'sort_by', 'sort_unstable_by', 'sort_by_key', 'sort_unstable_by_key', 'sort_by_cached_key',
+               'deref_mut', 'as_mut_slice', 'as_mut', 'iter_mut', 'reverse', 'swap', 'borrow_mut', 'index_mut')
+THROUGH = re.compile(r'::(deref|deref_mut|as_slice|as_mut_slice|as_ref|as_mut|borrow|borrow_mut|index|index_mut|copied|cloned|unwrap|expect|clone|iter|into_iter|as_deref)(::<.*>)?$')
+
+
+class PairShape:
+    """symbolic walk of the (loop-free) body of try_from(ids): which lengths of `ids` reach which exit,
+    which element of `ids` an operand is, which order facts hold on the way"""
+    def __init__(self, ctx, body, root=1):
+        self.ctx = ctx; self.b = body; self.root = root
+        self.unknown_tests = set()
+        self._from_root = {}
+
+    def from_root(self, l):
+        if l not in self._from_root:
+            self._from_root[l] = self.root in self.ctx.S.backslice(self.b, [l]).params
+        return self._from_root[l]
+
+    # ---- what is this place?
+    def resolve(self, pl, depth=24):
+        """('elem', pos) element of ids, pos = ('s', k) k-th from the start | ('e', k) k-th from the end
+           ('opt', pos)  Option of that element (first / last / get(k)): Some iff the element exists
+           ('len',)      ids.len()
+           ('call', Call) result of another call | None"""
+        b = self.b; l = pl['l']; proj = list(pl['p'])
+        for _ in range(depth):
+            for p in proj:
+                if isinstance(p, dict) and 'cix' in p:
+                    return ('elem', ('e', p['cix'] - 1) if p.get('fe') else ('s', p['cix'])) if self.from_root(l) else None
+                if isinstance(p, dict) and 'ix' in p: return None
+            if 1 <= l <= b.argc: return ('param', l)
+            d = single_def(b, l)
+            if d is None: return None
+            kind, bi, x = d
+            if kind == 'call':
+                c = [y for y in b.calls if y.bb == bi][0]
+                a0 = c.args[0] if c.args else None
+                recv_ok = a0 is not None and a0['k'] in ('copy', 'move') and self.from_root(a0['pl']['l'])
+                if c.item in ('first', 'last') and recv_ok and re.search(r'slice::<impl \[|Vec::<', c.name): return ('opt', ('s', 0) if c.item == 'first' else ('e', 0))
+                if c.item == 'get' and recv_ok and len(c.args) == 2 and usize_const(const_operand(b, c.args[1]) or {'k': ''}) is not None:
+                    return ('opt', ('s', usize_const(const_operand(b, c.args[1]))))
+                if c.item == 'len' and recv_ok: return ('len',)
+                if c.item in ('index', 'index_mut') and recv_ok and len(c.args) == 2:
+                    k = const_operand(b, c.args[1])
+                    if k is not None and usize_const(k) is not None: return ('elem', ('s', usize_const(k)))
+                if THROUGH.search(T.strip_generics_tail(c.name)) and a0 is not None and a0['k'] in ('copy', 'move'):
+                    l = a0['pl']['l']; proj = list(a0['pl']['p']) + proj; continue
+                return ('call', c)
+            rv = x['rv']; k = rv['k']
+            if k == 'use' and rv['ops'][0]['k'] in ('copy', 'move'):
+                p2 = rv['ops'][0]['pl']; l = p2['l']; proj = list(p2['p']) + proj; continue
+            if k == 'ref':
+                p2 = rv['pl']; l = p2['l']; proj = list(p2['p']) + [q for q in proj]; continue
+            if k == 'agg' and rv['adt'] == 'tuple':
+                fi = [i for i, q in enumerate(proj) if isinstance(q, dict) and 'f' in q]
+                if not fi: return None
+                q = proj[fi[0]]
+                if not q['f'].isdigit() or int(q['f']) >= len(rv['ops']): return None
+                o = rv['ops'][int(q['f'])]
+                if o['k'] not in ('copy', 'move'): return None
+                l = o['pl']['l']; proj = list(o['pl']['p']) + proj[fi[0] + 1:]; continue
+            if k == 'un' and rv['op'] == 'PtrMetadata' or k == 'len':
+                o = rv['ops'][0] if rv.get('ops') else {'k': 'copy', 'pl': rv['pl']}
+                if o['k'] in ('copy', 'move') and self.from_root(o['pl']['l']): return ('len',)
+                return None
+            if k == 'cast' and rv['ops'][0]['k'] in ('copy', 'move'):
+                p2 = rv['ops'][0]['pl']; l = p2['l']; proj = list(p2['p']) + proj; continue
+            return None
+        return None
+
+    def pred(self, l, depth=6):
+        """predicate held by a bool / discriminant local: ('len', op, k) | ('some', pos) | ('empty',) |
+        ('cmp', op, posA, posB) | ('not', p) | ('lenval',) | None"""
+        b = self.b
+        d = single_def(b, l)
+        if d is None or depth == 0: return None
+        kind, bi, x = d
+        if kind == 'call':
+            c = [y for y in b.calls if y.bb == bi][0]
+            if T.NOT_CALL.search(c.name) and c.arg_local(0) is not None:
+                p = self.pred(c.arg_local(0), depth - 1); return ('not', p) if p else None
+            if c.item == 'is_empty' and c.arg_local(0) is not None and self.from_root(c.arg_local(0)): return ('empty',)
+            if c.item in ('is_some', 'is_none') and c.args[0]['k'] in ('copy', 'move'):
+                r = self.resolve(c.args[0]['pl'])
+                if r and r[0] == 'opt': return ('some', r[1]) if c.item == 'is_some' else ('not', ('some', r[1]))
+            if c.item in ('le', 'lt', 'ge', 'gt') and 'PartialOrd' in (c.trait or c.name) and len(c.args) == 2:
+                ra = [self.resolve(a['pl']) if a['k'] in ('copy', 'move') else None for a in c.args]
+                if all(r and r[0] in ('elem', 'opt') for r in ra): return ('cmp', c.item.capitalize(), ra[0][1], ra[1][1])
+            if c.item == 'len' and c.arg_local(0) is not None and self.from_root(c.arg_local(0)): return ('lenval',)
+            return None
+        rv = x['rv']; k = rv['k']
+        if k == 'use' and rv['ops'][0]['k'] in ('copy', 'move') and not rv['ops'][0]['pl']['p']: return self.pred(rv['ops'][0]['pl']['l'], depth - 1)
+        if k == 'un' and rv['op'] == 'Not' and rv['ops'][0]['k'] in ('copy', 'move'):
+            p = self.pred(rv['ops'][0]['pl']['l'], depth - 1); return ('not', p) if p else None
+        if k == 'un' and rv['op'] == 'PtrMetadata':
+            return ('lenval',) if self.resolve({'l': l, 'p': []}) == ('len',) else None
+        if k == 'discr':
+            r = self.resolve(rv['pl'])
+            if r and r[0] == 'opt': return ('some', r[1])
+            return None
+        if k == 'bin' and rv['op'] in FLIP:
+            a, c2 = rv['ops']; op = rv['op']
+            ka, kb = const_operand(b, a), const_operand(b, c2)
+            ra = self.resolve(a['pl']) if a['k'] in ('copy', 'move') and ka is None else None
+            rb = self.resolve(c2['pl']) if c2['k'] in ('copy', 'move') and kb is None else None
+            if ra == ('len',) and kb is not None and usize_const(kb) is not None: return ('len', op, usize_const(kb))
+            if rb == ('len',) and ka is not None and usize_const(ka) is not None: return ('len', FLIP[op], usize_const(ka))
+            if ra and rb and ra[0] in ('elem', 'opt') and rb[0] in ('elem', 'opt') and op in ('Le', 'Lt', 'Ge', 'Gt'): return ('cmp', op, ra[1], rb[1])
+        return None
+
+    @staticmethod
+    def exists(pos, n): return n > pos[1]
+
+    def apply(self, p, truth, lens, facts):
+        """restrict (lens, facts) by predicate p having value `truth`"""
+        if p[0] == 'not': return self.apply(p[1], not truth, lens, facts)
+        if p[0] == 'len':
+            op, k = p[1], p[2]
+            if k > 5: return lens, facts
+            f = {'Eq': lambda n: n == k, 'Ne': lambda n: n != k, 'Lt': lambda n: n < k, 'Le': lambda n: n <= k, 'Gt': lambda n: n > k, 'Ge': lambda n: n >= k}[op]
+            return frozenset(n for n in lens if f(n) == truth), facts
+        if p[0] == 'some': return frozenset(n for n in lens if self.exists(p[1], n) == truth), facts
+        if p[0] == 'empty': return frozenset(n for n in lens if (n == 0) == truth), facts
+        if p[0] == 'cmp':
+            op, A, B = p[1], p[2], p[3]
+            le = (A, B) if (op in ('Le', 'Lt')) == truth else (B, A)       # le[0] <= le[1]  (strictness is not needed)
+            return lens, facts | {le}
+        return lens, facts
+
+    def walk(self):
+        """returns (ok_lens, err_lens, pair sites [(bb, stmt, lens, facts)])"""
+        b = self.b; oks = b.strict_ok_exits(); errs = b.err_exits()
+        ok_lens = set(); err_lens = set(); pairs = []
+        seen = set(); work = [(0, DOM, frozenset(), frozenset())]
+        tracked = T._cp_tracked(b)
+        while work:
+            bi, lens, facts, env = work.pop()
+            if (bi, lens, facts, env) in seen or len(seen) > 20000: continue
+            seen.add((bi, lens, facts, env))
+            e = dict(env); blk = b.blocks[bi]
+            for st in blk['st']:
+                if 'dst' not in st: continue
+                rv = st['rv']; d = st['dst']
+                if rv['k'] == 'agg' and rv['adt'].endswith('sorted_ids::BinaryIdPair'): pairs.append((bi, st, lens, facts))
+                if d['p'] or d['l'] not in tracked: continue
+                o = rv['ops'][0] if rv.get('ops') else None
+                if rv['k'] == 'use' and o['k'] == 'const' and o['v'] in ('true', 'false'): e[d['l']] = (o['v'] == 'true')
+                elif rv['k'] == 'use' and o['k'] in ('copy', 'move') and not o['pl']['p'] and o['pl']['l'] in e: e[d['l']] = e[o['pl']['l']]
+                elif rv['k'] == 'un' and rv['op'] == 'Not' and o['k'] in ('copy', 'move') and o['pl']['l'] in e: e[d['l']] = not e[o['pl']['l']]
+                else: e.pop(d['l'], None)
+            if bi in oks: ok_lens |= lens
+            if bi in errs: err_lens |= lens
+            t = blk['term']; nxt = []
+            if t['k'] == 'call':
+                c = [y for y in b.calls if y.bb == bi]
+                if c and t['t'] >= 0:
+                    c = c[0]
+                    mut = [a for a in c.args if a['k'] in ('copy', 'move') and b.locals[a['pl']['l']].startswith('&mut') and self.from_root(a['pl']['l'])]
+                    if mut and c.item not in LEN_KEEPING: lens, facts = DOM, frozenset()
+                    elif mut: facts = frozenset()
+                    e.pop(t['dst']['l'], None)
+                    nxt.append((t['t'], lens, facts))
+            elif t['k'] == 'switch' and t['d']['k'] != 'const' and not t['d']['pl']['p']:
+                dl = t['d']['pl']['l']; m = [(v, tg) for v, tg in t['ts']]
+                if dl in e:
+                    v = 1 if e[dl] else 0
+                    nxt.append((dict(m).get(v, t['else']), lens, facts))
+                else:
+                    p = self.pred(dl)
+                    if p is None:
+                        if self.from_root(dl): self.unknown_tests.add(bi)
+                        for s in b.succ(bi): nxt.append((s, lens, facts))
+                    elif p == ('lenval',):
+                        listed = set()
+                        for v, tg in m:
+                            listed.add(v); nxt.append((tg, lens & {v}, facts))
+                        nxt.append((t['else'], frozenset(lens - listed), facts))
+                    elif b.locals[dl] == 'bool':
+                        for v, tg in m: nxt.append((tg,) + self.apply(p, bool(v), lens, facts))
+                        nxt.append((t['else'],) + self.apply(p, True, lens, facts) if all(v == 0 for v, _ in m) else (t['else'], lens, facts))
+                    else:
+                        # discriminant of an Option: 1 = Some, 0 = None; `else` = the values not listed
+                        listed = {v for v, _ in m}
+                        for v, tg in m: nxt.append((tg,) + self.apply(p, v == 1, lens, facts))
+                        rest = {0, 1} - listed
+                        if len(rest) == 1: nxt.append((t['else'],) + self.apply(p, rest == {1}, lens, facts))
+                        elif rest: nxt.append((t['else'], lens, facts))
+            else:
+                for s in b.succ(bi): nxt.append((s, lens, facts))
+            fe = frozenset(e.items())
+            for s, ls, fs in nxt:
+                if b.blocks[s]['cleanup'] or not ls: continue
+                work.append((s, frozenset(ls), fs, fe))
+        return ok_lens, err_lens, pairs
 
 
 def pair_rules(ctx):
     R = 'C11.pair'
     b = ctx.method(R + '/anchor', 'sorted_ids::BinaryIdPair', 'try_from', trait='TryFrom', targs=['std::vec::Vec<u64>'])
     if b is None: return
-    mustcall(ctx, R + '/sorted', b, lambda c: c.item in ('sort_unstable', 'sort'), 'ids.sort()', propagate=False)
-    mustcall(ctx, R + '/dedup', b, lambda c: c.item == 'dedup', 'ids.dedup()', propagate=False)
-    aggs = find_aggregates(b, 'sorted_ids::BinaryIdPair')
-    ctx.check(len(aggs) >= 2, R + '/arms', 'T-BRANCHFX', b.name, 'expected pair constructions for one and two ids', b.site())
-    # length tests: Ok only under len in {1,2}
-    lens = set()
-    for bi, st in b.stmts():
-        if st['rv']['k'] == 'bin' and st['rv']['op'] == 'Eq':
-            for o in st['rv']['ops']:
-                if o['k'] in ('copy', 'move'):
-                    for k, b2, d in b.defs_of(o['pl']['l']):
-                        if k == 'stmt' and d['rv']['k'] == 'use' and d['rv']['ops'][0]['k'] == 'const':
-                            m = re.match(r'^(\d+)_usize$', d['rv']['ops'][0]['v'])
-                            if m: lens.add(int(m.group(1)))
-    ctx.check(lens == {1, 2}, R + '/lengths', 'T-TABLE', b.name, 'accepted lengths are %s, expected {1, 2}' % sorted(lens), b.site())
+    # CANONICALISE idioms: ids.sort*() and ids.dedup*()  |  collecting the ids into a BTreeSet (sorted and duplicate-free at once)
+    into_set = lambda c: (c.item in ('collect', 'from_iter') and 'BTreeSet<u64>' in c.name) or (c.item == 'from' and 'BTreeSet<u64> as' in c.name)
+    mustcall(ctx, R + '/sorted', b, lambda c: c.item in LEN_KEEPING[:7] or into_set(c), 'ids.sort()', propagate=False)
+    mustcall(ctx, R + '/dedup', b, lambda c: c.item in ('dedup', 'dedup_by', 'dedup_by_key') or into_set(c), 'ids.dedup()', propagate=False)
+    sh = PairShape(ctx, b)
+    ok_lens, err_lens, pairs = sh.walk()
+    ctx.counters['cfg_paths'] += 1
+    # the pair is made of elements of ids
+    ctx.check(bool(pairs) and all(all(1 in ctx.S.slice_operand(b, o).params for o in st['rv']['ops']) for bi, st, ls, fs in pairs), R + '/from-ids', 'T-CARRY', b.name,
+              'the returned pair is not made of the given ids', b.site())
+    # Ok exactly for one or two distinct ids
+    exact = {n for n in ok_lens}
+    if exact == {1, 2}:
+        ctx.ok(R + '/lengths', 'T-TABLE', b.site(), lengths=sorted(exact))
+    elif sh.unknown_tests and (exact - {1, 2}) and b.err_exits():
+        # a test on ids that is not in the predicate table decides: the weaker clause "some test on ids separates Ok from Err" holds
+        ctx.undecided(R + '/lengths', 'T-TABLE', b.site(), 'length tests not recognised at %s; lengths reaching Ok under the recognised ones: %s' % ([b.site(x) for x in sorted(sh.unknown_tests)], sorted(exact)))
+    else:
+        ctx.bad(R + '/lengths', 'T-TABLE', b.name, 'accepted lengths are %s, expected [1, 2]' % [('%d+' % n if n == 7 else n) for n in sorted(exact)], b.site())
     ctx.check(bool(b.err_exits()), R + '/other-lengths-error', 'T-TABLE', b.name, 'no Err-exit for other lengths', b.site())
+    # canonical order: (ids[i], ids[j]) with i <= j in the sorted vector, or an explicit comparison on the way
+    bad = []; unres = []
+    for bi, st, lens, facts in pairs:
+        ops = st['rv']['ops']
+        rs = [sh.resolve(o['pl']) if o['k'] in ('copy', 'move') else None for o in ops]
+        if len(rs) != 2 or not all(r and r[0] in ('elem', 'opt') for r in rs):
+            unres.append(bi); continue
+        A, B = rs[0][1], rs[1][1]
+        val = lambda p, n: p[1] if p[0] == 's' else n - 1 - p[1]
+        by_index = all(val(A, n) <= val(B, n) for n in lens if n < 7)
+        if not (by_index or (A, B) in facts or A == B): bad.append((bi, A, B, sorted(lens)))
+    if bad:
+        ctx.bad(R + '/ordered', 'T-BRANCHFX', b.name, 'pair built as (ids[%s], ids[%s]) for lengths %s without i <= j or a comparison' % (bad[0][1], bad[0][2], bad[0][3]), b.site(bad[0][0]))
+    elif unres:
+        ctx.undecided(R + '/ordered', 'T-BRANCHFX', b.site(unres[0]), 'pair operands are not recognisable as elements of ids (weaker clause /from-ids and /sorted hold)')
+    else:
+        ctx.ok(R + '/ordered', 'T-BRANCHFX', b.site(), pairs=len(pairs))
     # crate-wide: the pair / set keys are only constructed inside their own impls
     outside = []
     for fb in ctx.F.bodies.values():
@@ -182,11 +940,13 @@ def pair_rules(ctx):
     fb = ctx.method(R + '/anchor/BinaryIds-from', 'sorted_ids::BinaryIds', 'from', trait='From', targs=['sorted_ids::SortedIds'])
     if fb is not None:
         s = ctx.S.backslice(fb, [0])
-        ctx.check(1 in s.params and s.has_call(r'collect::<std::collections::BTreeSet<u64>>'), R + '/BinaryIds-from-set', 'T-CARRY', fb.name, 'BinaryIds::from does not collect the ids into a set', fb.site())
+        # SET-BUILD idioms: iter.collect::<BTreeSet<u64>>() | BTreeSet::from_iter(..) | set.insert(id) / set.extend(ids) | BTreeSet::from(..)
+        built = s.has_call(r'collect::<std::collections::BTreeSet<u64>>|BTreeSet<u64> as std::iter::FromIterator|BTreeSet::<(u64|T)>::(insert|extend|from)|BTreeSet<u64> as std::iter::Extend|BTreeSet<u64> as std::convert::From')
+        ctx.check(1 in s.params and built, R + '/BinaryIds-from-set', 'T-CARRY', fb.name, 'BinaryIds::from does not collect the ids into a set', fb.site())
 
 
 def check(ctx):
     export_rules(ctx, 'as_pubo_format', 'BinaryIds', False)
     export_rules(ctx, 'as_qubo_format', 'BinaryIdPair', True)
     pair_rules(ctx)
-    ctx.floor('C11.as_pubo_format', 18); ctx.floor('C11.as_qubo_format', 22); ctx.floor('C11.pair', 9)
+    ctx.floor('C11.as_pubo_format', 19); ctx.floor('C11.as_qubo_format', 25); ctx.floor('C11.pair', 10)
